@@ -280,3 +280,18 @@ PROPS['C04'] = dict(
     level_text='Proof (partial): C04_structure_any_hash (any substituted hash), C04_literal_escaping (every code point is written in the class the canonical form assigns); byte equality with RDFC-1.0 by the W3C vectors and by the model correspondence (exploration).',
     level_note='Fixes made while building this check: canonical escaping of control characters (F09), <<predicate>> in the related-hash input (F11), shared issuer provider (F10). After them all 64 positive W3C vectors match byte for byte.',
 )
+
+PROPS['C18'] = dict(
+    families=[dict(name='c18-pipe', quick=640, thorough=40000), dict(name='c18-resolve', quick=4000, thorough=200000)],
+    slice=25,
+    rule='the rdfkit binary built from the working tree: 8 source formats (nt, nq, ttl, trig, rdf/xml, rdf/json, json-ld, html) x 4 target formats (nt, nq, ttl, rdf-json) x output parameters (ascii; buffered, resources, iris.useBase, iris.usePrefix incl. rdfa-context) x how the type is given (alias, identifier, file extension, content sniffing where the format has a sniffer which recognises the document, else the TriG fallback); '
+         'sources: generated N-Triples/N-Quads (some with literals that look like markup or JSON), grammar-directed Turtle/TriG, structured RDF/XML, RDF/JSON, JSON-LD and HTML (RDFa, Microdata, JSON-LD script) documents; the dataset a source holds is what the matching library decoder yields with the same base (sources it rejects, or which hold relative or unwritable IRIs or malformed language tags, are counted as skipped); '
+         'the output file is decoded with the library decoder of the target format and compared up to blank node renaming, restricted to the default graph for triples-only targets; '
+         'model-backed: Registry.ResolveDecoderType / ResolveEncoderType on stub resources (explicit type, media type, file name, first bytes) against the Gallina model with the live registry tables, and the consistency predicate of the theorem evaluated on the live extension table',
+    trusted_base=['model/Registry.v mirrors rdfio/rdfiotypes/registry.go; the verdict of the magic-byte resolvers is an input of the model (computed by running the registered resolvers in order)',
+                  'cobra flag parsing, file resources and the per-format rdfio wrappers are exercised end to end only'],
+    assumptions=['label injectivity of the output follows from the isomorphism oracle; the label providers themselves are the subject of C14'],
+    explanation='theorems: the resolved type is independent of the iteration order of the extension map for a consistent table (and the live table is checked to be consistent on every run), explicit types and file extensions are not overridden; model = implementation on generated resources; end-to-end conversions through the built binary with an isomorphism oracle',
+    level_text='Proof for the type resolution (C18_type_resolution_order_independent, C18_alias_wins, C18_extension_beats_sniffing); the conversions themselves by exploration through the built command line tool.',
+    level_note='Fixes made while building this check: named graphs merged into triples-only outputs; content sniffing overriding the file extension.',
+)
